@@ -1,4 +1,5 @@
 CONSTANT L = 3
+CONSTANT RemFoldAll = TRUE
 CONSTANT CheckRemCommit = TRUE
 SPECIFICATION Spec
 INVARIANT Sound
